@@ -15,6 +15,10 @@ then every raw tuple leaving one is.  Decided here (Engine E):
   E-R4  the normaliser kernels perform  zero-test -> round -> strip trailing
         zeros -> power-of-two fix-up -> return, with every mantissa shift
         mirrored on exponent and bit count
+  E-R7  the sign and mantissa arguments of every normaliser call are
+        non-negative (the sign is a separate field; a negative mantissa would
+        be shifted and bit-counted as if it were positive): flow-sensitive
+        integer sign analysis (sa/intsign.py), reasoned site table for the rest
   E-R6  values that come from outside (user tuples, pickles) enter through
         normalize/from_man_exp/from_pickable, never through a kernel that
         assumes canonical input
@@ -64,11 +68,13 @@ def run(run, ix, tier):
     run.rule('E-R3', floor=20, desc='bit count exact at normaliser calls')
     run.rule('E-R4', floor=3, desc='normaliser kernels typestate')
     run.rule('E-R6', floor=4, desc='foreign tuples enter through the general normaliser')
+    run.rule('E-R7', floor=55, desc='sign and mantissa arguments of the normalisers are non-negative')
     check_constants(run, ix)
     check_tuples(run, ix)
     check_normaliser_calls(run, ix)
     check_normaliser_kernels(run, ix)
     check_entries(run, ix)
+    check_normaliser_signs(run, ix)
 
 
 # ---------------------------------------------------------------------------
@@ -502,3 +508,37 @@ def check_entries(run, ix):
         else:
             run.fail(Finding('E-R6', CTXPY, qn, norm(st[0]) if st else 'def', 'state is not restored '
                              'through from_pickable', line=h.lineno))
+
+
+NORMALISER_ARGS = {'normalize': (0, 1), 'normalize1': (0, 1), '_normalize': (0, 1), '_normalize1': (0, 1),
+                   'strict_normalize': (0, 1), 'strict_normalize1': (0, 1)}
+
+
+def check_normaliser_signs(run, ix):
+    """E-R7 (see the module docstring)."""
+    from .. import intsign, nonneg
+    for f in ix.all_funcs():
+        if '/tests/' in f.file:
+            continue
+        if not any(isinstance(x, ast.Call) and isinstance(x.func, ast.Name) and x.func.id in NORMALISER_ARGS
+                   for x in _walk_own(f.node)):
+            continue
+        watched = intsign.analyse_watch(f, NORMALISER_ARGS)
+        for (call, i), s in sorted(watched.items(), key=lambda kv: (kv[0][0].lineno, kv[0][1])):
+            arg = norm(call.args[i])
+            what = 'sign' if i == 0 else 'mantissa'
+            if s <= intsign.NONNEG:
+                run.ok('E-R7', '%s: %s(...) %s `%s` has sign set %s' % (f.qualname, call.func.id, what, arg, sorted(s)))
+            elif (f.qualname, arg) in nonneg.NORMALISER_SITE_CONTRACT:
+                run.ok('E-R7', '%s: %s `%s` -- by the recorded reason: %s'
+                       % (f.qualname, what, arg, nonneg.NORMALISER_SITE_CONTRACT[(f.qualname, arg)][:70]))
+            else:
+                st = call
+                while not isinstance(st, ast.stmt):
+                    st = st._parent
+                run.fail(Finding('E-R7', f.file, f.qualname, norm(st),
+                                 'the %s argument `%s` of %s is not shown to be non-negative (possible signs %s): the '
+                                 'normaliser shifts and bit-counts the mantissa as a non-negative integer and keeps the '
+                                 'sign in its own field, so a negative value yields a non-canonical tuple'
+                                 % (what, arg, call.func.id, ', '.join({-1: 'negative', 0: 'zero', 1: 'positive'}[x]
+                                                                       for x in sorted(s))), line=call.lineno))
